@@ -9,11 +9,15 @@ import random
 import re
 import subprocess
 import sys
+import time
+
+import json
 
 from vlib import core, flow
+from checks import c01_deep
 
 KINDS = ["set", "mset", "map", "mmap"]
-SLOT_PAIRS = [(4, 4), (5, 5), (6, 6), (7, 7), (8, 8), (16, 16), (4, 7), (7, 4), (5, 16), (16, 5)]
+SLOT_PAIRS = [(4, 4), (4, 5), (5, 4), (5, 5), (6, 6), (7, 7), (8, 8), (16, 16), (4, 7), (7, 4), (5, 16), (16, 5)]
 STD_FLAGS = ["-std=gnu++17", "-O0", "-g1", "-fsanitize=address,undefined",
              "-fno-sanitize-recover=all", "-fno-omit-frame-pointer"]
 
@@ -330,12 +334,23 @@ def nontrivial_key(case, answers):
 
 class BTreeSpec(flow.Spec):
     def probe_lines(self, case, idx):
-        """all queries over the key universe on the register whose structure differs"""
+        """all queries over the keys of the case (and their neighbours) on the register whose structure differs"""
         toks = case[idx].split()
         regs = [t for t in toks[1:3] if t in ("0", "1")] or ["0"]
+        keys = set(range(0, 48))
+        for l in case[:idx + 1]:
+            t = l.split()
+            if t and t[0] in ("ins", "insh", "ins2", "idx", "insr", "rctor", "bulk"):
+                for x in t[2:]:
+                    k = x.split(":")[0]
+                    if k.isdigit():
+                        keys.update((int(k), int(k) + 1, max(int(k) - 1, 0)))
+        keys = sorted(keys)
+        if len(keys) > 900:
+            keys = keys[::len(keys) // 900 + 1]
         out = []
         for r in dict.fromkeys(regs):
-            for k in range(0, 48):
+            for k in keys:
                 for q in ("find", "lb", "ub", "eqr", "exists", "count"):
                     out.append(f"{q} {r} {k}")
             for m in range(16):
@@ -374,6 +389,7 @@ class BTreeSpec(flow.Spec):
         cs = []
         if round_no == 0:
             cs += directed_cases()
+            cs += self.deep_cases(ctx, seed, tier)
         n = 260 if tier == "quick" else 8000
         k = 0
         # every kind x slot pair x search x order at least once per run, then random configurations
@@ -390,7 +406,64 @@ class BTreeSpec(flow.Spec):
                 for length in (4, 5) if kind in ("map", "mmap") else (4, 5, 6):
                     cs += exhaustive_small(kind, 4, 4, 0, 0, length)
             cs += exhaustive_small("mset", 5, 5, 1, 1, 6)
+        self.seen_cases = getattr(self, "seen_cases", []) + cs
         return cs
+
+    def deep_cases(self, ctx, seed, tier):
+        """tall trees at the minimal capacities shaped for every branch of the erase case analysis, planned
+        with the model's branch trace (checks/c01_deep.py); cached per model driver, seed and tier"""
+        drv = core.driver_path(self.pid)
+        if not os.path.exists(drv):
+            return []
+        h = hashlib.sha1()
+        for f in (drv, c01_deep.__file__):
+            h.update(open(f, "rb").read())
+        cache = os.path.join(core.BUILD, "c01_deep", f"{h.hexdigest()[:20]}_{tier}_{seed}.json")
+        if os.path.exists(cache):
+            try:
+                return json.load(open(cache))
+            except ValueError:
+                pass
+        t = time.time()
+        cases, covered = c01_deep.plan(drv, seed, tier, lambda m: ctx.say(m))
+        ctx.say(f"deep-tree planner: {len(cases)} cases, {sum(len(c) for c in cases)} ops, "
+                f"{len([l for l in c01_deep.UNIVERSE if l in covered])}/{len(c01_deep.UNIVERSE)} branches of the erase "
+                f"case analysis planned, {time.time() - t:.1f}s")
+        os.makedirs(os.path.dirname(cache), exist_ok=True)
+        tmp = cache + f".tmp{os.getpid()}"
+        json.dump(cases, open(tmp, "w"))
+        os.replace(tmp, cache)
+        return cases
+
+    def extra_coverage(self, ctx, res):
+        """branch coverage of erase_one_descend / erase_iter_descend over every generated case of this run,
+        as traced by the model (`drv labels`, Model/C01Trace.lean)"""
+        drv = core.driver_path(self.pid)
+        cases = getattr(self, "seen_cases", [])
+        if not os.path.exists(drv) or not cases:
+            return {}
+        cnt = c01_deep.coverage(drv, cases)
+        table = {l: cnt.get(l, 0) for l in c01_deep.UNIVERSE}
+        other = {l: c for l, c in cnt.items() if l not in table}
+        missing = [l for l in c01_deep.UNIVERSE if not cnt.get(l)]
+        ctx.say(f"erase branch coverage (model trace over {len(cases)} generated cases): "
+                f"{len(table) - len(missing)}/{len(table)} branches exercised"
+                + ("; NOT exercised: " + " ".join(missing) if missing else ""))
+        return {"erase_branch_coverage": table,
+                "erase_branches_exercised": len(table) - len(missing),
+                "erase_branches_total": len(table),
+                "erase_branches_not_exercised": missing,
+                "erase_branch_labels_outside_table": other,
+                "erase_branch_legend": (
+                    "k = erase_one_descend, i = erase_iter_descend; L leaf frame, I1 inner frame of level 1, I2 of "
+                    "level >= 2; row<r> = branch of the underflow if/else chain in source order (1 both neighbours "
+                    "few/null, 2 left few & right has spare, 3 left has spare & right few, 4 both spare & same parent, "
+                    "5 else; a/b = first/second alternative: a same-parent action, b the cousin-under-another-parent "
+                    "one for rows 1-3 and 5); +lk = myres already carries btree_update_lastkey when the merge/shift "
+                    "result is or-ed in; nofix = no underflow; lastkey.set/fwd = separator written / forwarded; "
+                    "fixmerge.cur/next = which merged child is the empty one; exec.* = the merge/shift function run; "
+                    "scan.advance = erase_iter's search loop went on to a further child; counts are model-side "
+                    "(the model is compared with the implementation structurally on every one of these operations)")}
 
 
 class C01(BTreeSpec):
